@@ -27,7 +27,10 @@ Definition dic_part (w : N) : N := w / DIC.
 Definition word_part (w : N) : N := w mod DIC.
 
 Definition rows_of (ds : srcs) (d : N) : list rrow := nth (N.to_nat d) ds [].
-Definition src_row (ds : srcs) (w : N) : option rrow := nth_error (rows_of ds (dic_part w)) (N.to_nat (word_part w)).
+(* (the guard keeps N.to_nat away from the word parts of special ids -- 2^28 - 1 for merged tokens -- when the model is run) *)
+Definition src_row (ds : srcs) (w : N) : option rrow :=
+  let rows := rows_of ds (dic_part w) in
+  if word_part w <? N.of_nat (List.length rows) then nth_error rows (N.to_nat (word_part w)) else None.
 Definition src_key (ds : srcs) (w : N) : text := match src_row ds w with Some r => r_surface r | None => [] end.
 
 (* the keys BinDictResolver has for the system dictionary: headword, POS, stored reading of every system row *)
